@@ -91,7 +91,13 @@ func (s Scenario) overlap() string { return s.word("overlap=") }
 func (s Scenario) damage() string { return s.word("dmg=") }
 
 // mayFail: the input is such that the operation may (or must) return an error.
-func (s Scenario) mayFail() bool { return s.srvMode() != "" || s.damage() != "" }
+// (explicit-other: the configured temp dir is on another file system, the rename fails with EXDEV)
+func (s Scenario) mayFail() bool {
+	return s.srvMode() != "" || s.damage() != "" || s.Tmp == "explicit-other"
+}
+
+// explicitTmp: a temp dir is configured explicitly (AtomicFileOptions.TempDir).
+func (s Scenario) explicitTmp() bool { return strings.HasPrefix(s.Tmp, "explicit") }
 
 func (s Scenario) has(word string) bool {
 	for _, w := range strings.Split(s.Var, ",") {
@@ -137,6 +143,9 @@ func layout(sp *Spec) Layout {
 		l.SysTmp = filepath.Join(sp.Root, "no-such-tmp")
 	default:
 		l.SysTmp = filepath.Join(sp.Root, "systmp")
+	}
+	if sp.Sc.Tmp == "explicit-other" {
+		l.Explicit = sp.Other
 	}
 	if ov := sp.Sc.overlap(); ov != "" {
 		sub := "a"
@@ -353,6 +362,22 @@ func newBytesOf(sp *Spec) []byte {
 	return content(tag, size)
 }
 
+// tempLocations decides what "the temporary location" is in a configuration:
+//   - a temp dir was configured explicitly: that directory, nothing else;
+//   - $TMPDIR is usable (exists, same mount point as the destination): $TMPDIR;
+//     next to the destination only renameio's empty probe file may stay;
+//   - $TMPDIR is missing or on another mount point: renameio falls back to the
+//     destination's directory (and its probe file may stay in $TMPDIR).
+func tempLocations(sc Scenario, l Layout, destDirs []string) (locs, probes []string) {
+	switch {
+	case sc.explicitTmp():
+		return []string{l.Explicit}, nil
+	case sc.Tmp == "other" || sc.Tmp == "missing":
+		return append(append([]string{}, destDirs...), l.SysTmp), nil
+	}
+	return []string{l.SysTmp}, destDirs
+}
+
 // prepareOverlap creates the initial state of an overlapping-writers run and
 // returns the expectations of writer A and writer B.
 func prepareOverlap(spA, spB *Spec) (exA, exB *Expect) {
@@ -360,15 +385,17 @@ func prepareOverlap(spA, spB *Spec) (exA, exB *Expect) {
 	mustMkdir(la.Dst, 0o755)
 	mustMkdir(filepath.Join(la.Dst, "a"), 0o755)
 	mustMkdir(filepath.Join(la.Dst, "b"), 0o755)
-	mustMkdir(la.SysTmp, 0o755)
+	if spA.Sc.Tmp != "missing" {
+		mustMkdir(la.SysTmp, 0o755)
+	}
 	mustMkdir(la.Explicit, 0o755)
-	locs := []string{filepath.Join(la.Dst, "a"), filepath.Join(la.Dst, "b"), la.SysTmp, la.Explicit}
+	locs, probes := tempLocations(spA.Sc, la, []string{filepath.Join(la.Dst, "a"), filepath.Join(la.Dst, "b")})
 	if data, mode := oldContent(spA.Sc.Old); data != nil {
 		mustWrite(filepath.Join(la.Dst, "a", "x"), data, mode)
 		mustWrite(filepath.Join(la.Dst, "b", "x"), data, mode)
 	}
-	exA = &Expect{Dest: la.Dest, NewKind: "file", SingleFile: true, NewBytes: newBytesOf(spA), TempLocs: locs}
-	exB = &Expect{Dest: lb.Dest, NewKind: "file", SingleFile: true, NewBytes: newBytesOf(spB), TempLocs: locs}
+	exA = &Expect{Dest: la.Dest, NewKind: "file", SingleFile: true, NewBytes: newBytesOf(spA), TempLocs: locs, ProbeLocs: probes}
+	exB = &Expect{Dest: lb.Dest, NewKind: "file", SingleFile: true, NewBytes: newBytesOf(spB), TempLocs: locs, ProbeLocs: probes}
 	return exA, exB
 }
 
@@ -383,6 +410,11 @@ type Expect struct {
 	TempLocs []string
 	// TempTrees are directories below which everything is temporary (registry tmp dir).
 	TempTrees []string
+	// ProbeLocs are directories that are NOT the temporary location of this
+	// configuration, in which only an EMPTY probe file of renameio's temp-dir
+	// check (.<base><random>, created next to the destination to test whether
+	// $TMPDIR is on the same mount point) may stay.
+	ProbeLocs []string
 	// SingleFile: the trace obligations fsync/close-before-rename apply.
 	SingleFile bool
 	// ExpectErr: the complete operation is expected to fail (none so far).
@@ -426,11 +458,10 @@ func prepare(sp *Spec) *Expect {
 		mustMkdir(l.SysTmp, 0o755)
 	}
 	ex := &Expect{Dest: l.Dest, NewKind: "file", SingleFile: true}
-	ex.TempLocs = []string{filepath.Dir(l.Dest), l.SysTmp}
-	if sc.Tmp == "explicit" {
+	if sc.explicitTmp() {
 		mustMkdir(l.Explicit, 0o755)
-		ex.TempLocs = append(ex.TempLocs, l.Explicit)
 	}
+	ex.TempLocs, ex.ProbeLocs = tempLocations(sc, l, []string{filepath.Dir(l.Dest)})
 	putOld := func() {
 		if data, mode := oldContent(sc.Old); data != nil {
 			mustWrite(l.Dest, data, mode)
@@ -446,6 +477,8 @@ func prepare(sp *Spec) *Expect {
 		mustWrite(l.Src, ex.NewBytes, 0o644)
 	case opSymlink:
 		ex.NewKind, ex.NewLink, ex.SingleFile = "symlink", "target-new", false
+		// renameio.Symlink always stages in a temp dir next to the new name
+		ex.TempLocs, ex.ProbeLocs = []string{filepath.Dir(l.Dest), l.SysTmp}, nil
 		switch sc.Old {
 		case "symlink":
 			if err := os.Symlink("target-old", l.Dest); err != nil {
@@ -456,7 +489,17 @@ func prepare(sp *Spec) *Expect {
 		}
 	case opPut:
 		if !sc.has("newdir1") && !sc.has("newdir2") {
-			putOld()
+			// the previous state is a valid stored record (or an empty file for old=empty)
+			if _, mode := oldContent(sc.Old); mode != 0 {
+				data := []byte{}
+				if sc.Old != "empty" {
+					var err error
+					if data, err = makeRecord(l.Key, "OLD", "small").MarshalRecord(nil); err != nil {
+						panic(err)
+					}
+				}
+				mustWrite(l.Dest, data, mode)
+			}
 		}
 		b, err := makeRecord(l.Key, "NEW", sc.New).MarshalRecord(nil)
 		if err != nil {
@@ -474,7 +517,7 @@ func prepare(sp *Spec) *Expect {
 		}
 		ex.NewBytes = content("NEW", sc.New)
 		// the signature file is published with renameio.WriteFile, which stages its temporary file in $TMPDIR or next to the destination
-		ex.TempLocs = []string{filepath.Dir(l.Dest), l.SysTmp}
+		ex.TempLocs, ex.ProbeLocs = []string{l.SysTmp}, []string{filepath.Dir(l.Dest)}
 		ex.TempTrees = []string{l.RegTmp}
 	case opUnpackZip:
 		mustMkdir(l.RegTmp, 0o700)
@@ -496,13 +539,13 @@ func prepare(sp *Spec) *Expect {
 				}
 			}
 		}
-		ex.TempLocs = []string{filepath.Dir(l.Dest)}
+		ex.TempLocs, ex.ProbeLocs = nil, nil
 		ex.TempTrees = []string{l.RegTmp}
 	case opUnpackFile:
 		mustMkdir(l.RegTmp, 0o700)
 		mustWrite(l.Archive, makeGzip(sc.New, sc.damage()), 0o644)
 		ex.NewBytes = content("NEW", sc.New)
-		ex.TempLocs = []string{filepath.Dir(l.Dest)}
+		ex.TempLocs, ex.ProbeLocs = nil, nil
 		ex.TempTrees = []string{l.RegTmp}
 	default:
 		panic("unknown op " + sc.Op)
@@ -562,9 +605,9 @@ func driverMain(specFile string) int {
 		op = func() error { return renameio.Symlink("target-new", l.Dest) }
 	case opCreate, opCopy, opReplace:
 		var opts *utils.AtomicFileOptions
-		if sc.Tmp == "explicit" || sc.has("mode0640") {
+		if sc.explicitTmp() || sc.has("mode0640") {
 			opts = &utils.AtomicFileOptions{}
-			if sc.Tmp == "explicit" {
+			if sc.explicitTmp() {
 				opts.TempDir = l.Explicit
 			}
 			if sc.has("mode0640") {
